@@ -20,15 +20,20 @@ from common import err_kind, frac_token, lst
 
 
 class Crash(Exception):
-    pass
+    """the process life ends here (kill / wall-time limit)"""
 
 
-class Fut:
-    def __init__(self, md):
-        self.md = md
+class UnitFailed(Crash):
+    """a work unit raised: the exception travels through the future, `future.result()` re-raises it and
+    `scheduler()` (which catches nothing) dies with it"""
 
-    def result(self):
-        return self.md
+
+def crash_kind(crash):
+    if crash is None:
+        return "finish"
+    if isinstance(crash, int):
+        return "crash-after-step"
+    return f"crash-{crash[0]}"
 
 
 def run_real_scheduler(ctx, n_ens, workers, steps, seed, rng, image=None, weights=None, crash_after=None, wf=False,
@@ -39,7 +44,38 @@ def run_real_scheduler(ctx, n_ens, workers, steps, seed, rng, image=None, weight
     sim = T.Sim(ctx, n_ens, workers, steps, seed=seed, wf=wf, rng=rng, cstep=cstep0, image=image, screen=screen)
     st = sim.st
     rec = {"submitted": 0, "treated": 0, "consumed_ids": [], "submitted_ids": [], "stop_calls": 0,
-           "inflight_after": [], "error": None, "restart_lag": []}
+           "inflight_after": [], "error": None, "restart_lag": [], "disk_bad": [], "disk_probes": 0, "writes": 0,
+           "waits": 0, "died_in": None, "events": []}
+    in_treat = [False]
+    # crash_after: None | k (die right after the move that made cstep k) | ("wait", j) (killed while blocked in the
+    # j-th as_completed() of this life) | ("unit", j) (the j-th unit submitted in this life raises: future.result())
+    crash_step = crash_after if isinstance(crash_after, int) else None
+    crash_wait = crash_after[1] if isinstance(crash_after, tuple) and crash_after[0] == "wait" else None
+    crash_unit = crash_after[1] if isinstance(crash_after, tuple) and crash_after[0] == "unit" else None
+
+    def disk_cstep():
+        """cstep of the restart file a restart would read now (a restarted life that has not written yet: its image)"""
+        fn = os.path.join(sim.tmp, "restart.toml")
+        if os.path.exists(fn):
+            try:
+                return T.read_image(sim.tmp)["cstep"]
+            except Exception as e:  # noqa: BLE001  unreadable file: not a number
+                return f"unreadable:{type(e).__name__}"
+        return cstep0 if image is not None else None
+
+    def probe(where):
+        """"the step counter in the restart file equals the number of completed moves" — evaluated wherever the code
+        hands control to the outside (submit, wait for a result, result(), stop) and at every write of the file"""
+        rec["disk_probes"] += 1
+        d = disk_cstep()
+        done = cstep0 + rec["treated"] + (1 if in_treat[0] else 0)
+        rec["events"].append((where, d))
+        if d is None:
+            ok = rec["treated"] == 0 and not in_treat[0]
+        else:
+            ok = d == done
+        if not ok and len(rec["disk_bad"]) < 5:
+            rec["disk_bad"].append((where, d, done))
     try:
         if image is None:
             sim.load_initial()
@@ -49,8 +85,20 @@ def run_real_scheduler(ctx, n_ens, workers, steps, seed, rng, image=None, weight
         sim.op_dump()
         futures = []
 
+        class Fut:
+            def __init__(self, md):
+                self.md = md
+
+            def result(self):
+                probe("result")
+                if crash_unit is not None and self.md.get("_uid") == crash_unit:
+                    rec["died_in"] = "unit"
+                    raise UnitFailed(f"work unit {crash_unit} failed")
+                return self.md
+
         class Runner:
             def submit_work(self, md):
+                probe("submit")
                 rec["submitted"] += 1
                 md["_uid"] = rec["submitted"]
                 rec["submitted_ids"].append(md["_uid"])
@@ -60,6 +108,7 @@ def run_real_scheduler(ctx, n_ens, workers, steps, seed, rng, image=None, weight
                 return Fut(md)
 
             def stop(self):
+                probe("stop")
                 rec["stop_calls"] += 1
 
         class Futures:
@@ -67,11 +116,24 @@ def run_real_scheduler(ctx, n_ens, workers, steps, seed, rng, image=None, weight
                 futures.append(f)
 
             def as_completed(self):
+                # the scheduler blocks here until a result is in: a kill / a failing unit ends the life in this window
+                rec["waits"] += 1
+                probe("wait")
+                if crash_wait is not None and rec["waits"] >= crash_wait:
+                    rec["died_in"] = "wait"
+                    raise Crash()
                 if not futures:
                     return None
                 return futures.pop(rng.randrange(len(futures)))
 
         o_init, o_loop, o_prep, o_treat = st.initiate, st.loop, st.prep_md_items, st.treat_output
+        o_write = st.write_toml
+
+        def w_write():
+            out = o_write()
+            rec["writes"] += 1
+            probe("write_toml")
+            return out
 
         def w_init():
             b = o_init()
@@ -97,11 +159,14 @@ def run_real_scheduler(ctx, n_ens, workers, steps, seed, rng, image=None, weight
             status, ws = md.pop("_verif")
             rec["consumed_ids"].append(md.get("_uid"))
             st.treat_output = o_treat
+            in_treat[0] = True
             try:
                 out = sim.op_treat(md, status, ws)
             finally:
                 st.treat_output = w_treat
+                in_treat[0] = False
             rec["treated"] += 1
+            probe("treated")
             sim.op_dump()
             # "the step counter in the restart file equals the number of completed moves": after EVERY completed
             # move, whatever the screen-output frequency — this is the file a killed run restarts from
@@ -112,11 +177,13 @@ def run_real_scheduler(ctx, n_ens, workers, steps, seed, rng, image=None, weight
             if on_disk != st.cstep:
                 rec["restart_lag"].append((st.cstep, on_disk))
             rec["inflight_after"].append((st.cstep, len(futures)))
-            if crash_after is not None and st.cstep >= crash_after:
+            if crash_step is not None and st.cstep >= crash_step:
+                rec["died_in"] = "step"
                 raise Crash()
             return out
 
         st.initiate, st.loop, st.prep_md_items, st.treat_output = w_init, w_loop, w_prep, w_treat
+        st.write_toml = w_write
         base = {"mc_moves": st.mc_moves, "interfaces": st.interfaces, "cap": None}
         s_int, s_run = S.setup_internal, S.setup_runner
         S.setup_internal = lambda config: (copy.deepcopy(base), st)
@@ -132,7 +199,12 @@ def run_real_scheduler(ctx, n_ens, workers, steps, seed, rng, image=None, weight
         rec["unconsumed"] = len(futures)
         rec["cstep"] = st.cstep
         rec["locked_mem"] = [(list(t[0]), list(t[1])) for t in st.locked]
-        rec["image"] = T.read_image(sim.tmp) if os.path.exists(os.path.join(sim.tmp, "restart.toml")) else None
+        probe("end-of-life")
+        # what a restart of this directory reads: the file this life wrote, else the file it was started from
+        if os.path.exists(os.path.join(sim.tmp, "restart.toml")):
+            rec["image"] = T.read_image(sim.tmp)
+        else:
+            rec["image"] = copy.deepcopy(image) if image is not None else None
         rec["weights"] = {pn: v["weights"] for pn, v in st.traj_data.items()}
     except Exception as e:  # noqa: BLE001
         rec["error"] = e
@@ -153,6 +225,12 @@ def judge(ctx, rec, label, workers, steps, final=True):
         c, d = rec["restart_lag"][0]
         ctx.fail("C17:restart-cstep-lags-completed-moves",
                  f"after the move that made cstep {c} the restart file says {d} ({len(rec['restart_lag'])} such moves)", rep)
+    if rec.get("disk_bad"):
+        where, d, done = rec["disk_bad"][0]
+        ctx.fail("C17:restart-cstep-not-completed-moves",
+                 f"at '{where}' the restart file says cstep {d} while {done} moves are completed "
+                 f"(start cstep {c0} + {done - c0} results consumed in this life); first of {len(rec['disk_bad'])} such points: "
+                 f"{rec['disk_bad']}", rep)
     if not rec.get("finished"):
         return
     want = max(0, steps - c0)
@@ -191,13 +269,30 @@ def scenario(ctx, n_ens, workers, chain, seed, with_model, outs):
     rng = random.Random(label)
     image = weights = None
     screen = rng.choice((0, 1, 1, 3, 4))      # output frequency of the run: must not matter for the restart file
+    total = 0                                  # moves completed (results consumed) over all lives on this directory
     for life, (steps, crash_after) in enumerate(chain):
         rec = run_real_scheduler(ctx, n_ens, workers, steps, seed, rng, image=image, weights=weights,
                                  crash_after=crash_after, screen=screen)
         ctx.hit(f"screen={screen}")
         ctx.count(1, life=life, workers=workers, kind=("crash" if crash_after else "finish"))
+        ctx.hit(f"life-end:{crash_kind(crash_after)}:{'died' if not rec.get('finished') else 'finished'}"
+                + (f":in-{rec['died_in']}" if rec.get("died_in") else ""))
         ctx.distinct((n_ens, workers, tuple(chain[: life + 1]), seed))
         judge(ctx, rec, f"{label} life={life}", workers, steps)
+        if rec["error"] is None:
+            total += rec["treated"]
+            rep = {"scenario": label, "ctxseed": ctx.seed}
+            im = rec.get("image")
+            # whatever way the life ended (finished, killed after a step, killed while waiting, a unit raised): the file a
+            # restart reads counts exactly the moves completed so far on this directory
+            if im is not None and im["cstep"] != total:
+                ctx.fail("C17:restart-cstep-not-completed-moves",
+                         f"after life {life} ({crash_kind(crash_after)}, died in {rec.get('died_in')}) the restart file says "
+                         f"cstep {im['cstep']}; {total} moves were completed over lives 0..{life}", rep)
+            if rec.get("finished") and total != max(steps, rec["cstep0"]):
+                ctx.fail("C17:total-moves-over-lives",
+                         f"run finished with steps={steps}: {total} moves completed over lives 0..{life} "
+                         f"(this life started at cstep {rec['cstep0']} and completed {rec['treated']})", rep)
         if with_model and rec["error"] is None:
             outs.append((rec["sim"], f"{label} life={life}"))
         if rec["error"] is not None or rec.get("image") is None:
@@ -250,7 +345,10 @@ def run(ctx):
     rng = ctx.rng
     ctx.rule = ("scenarios = chains of process lives of the REAL scheduler() on one state directory: (workers 1..4, "
                 "steps up to 10, finish or crash after a given step, then restart with the same / a larger / a barely "
-                "larger step count incl. fewer remaining steps than workers); random completion order, accept/reject and "
+                "larger step count incl. fewer remaining steps than workers; lives also end WHILE WAITING for a result: killed "
+                "in the j-th as_completed() or the u-th unit raises through future.result(), exhaustively in j,u for "
+                "workers 1..2 and short runs; the restart file is read at every hand-back of control and after every "
+                "write_toml and compared with the number of results consumed); random completion order, accept/reject and "
                 "pick outcomes; plus the runner's trace validation; distinct = distinct (ensembles, workers, chain, seed)")
     outs = []
     plans = []
@@ -264,10 +362,33 @@ def run(ctx):
             k = rng.randint(1, max(1, s1 - 1))
             plans.append((n_ens, w, [(s1 + 3, k), (s1 + 3, None)]))                                  # crash with jobs in flight
             plans.append((n_ens, w, [(s1 + 3, k), (k + 1, None)]))                                   # crash, restart with 1 step left
+            # the life ends WHILE THE SCHEDULER WAITS for a result (not at a step boundary): killed in the j-th wait /
+            # the u-th submitted unit raises (delivered by future.result(), scheduler() dies); then restart
+            j = rng.randint(1, s1 + 2)
+            plans.append((n_ens, w, [(s1 + 3, ("wait", j)), (s1 + 3, None)]))
+            u = rng.randint(1, s1 + 2)
+            plans.append((n_ens, w, [(s1 + 3, ("unit", u)), (s1 + 3 + rng.randint(0, 2), None)]))
+            plans.append((n_ens, w, [(s1 + 3, ("unit", rng.randint(1, w))), (s1 + 3, ("wait", rng.randint(1, 3))),
+                                     (s1 + 4, None)]))                                         # dies twice, the first time early
             if not ctx.quick:
                 for _ in range(4):
                     a = rng.randint(w, 8)
                     plans.append((n_ens, w, [(a + 4, rng.randint(1, a)), (a + 4, rng.randint(a, a + 2)), (a + 6, None)]))
+                for _ in range(4):
+                    a = rng.randint(w, 8)
+                    kinds = [rng.choice(("wait", "unit", "step")) for _ in range(3)]
+                    ch = []
+                    for kd in kinds:
+                        pt = rng.randint(1, a + 3)
+                        ch.append((a + 4, pt if kd == "step" else (kd, pt)))
+                    plans.append((n_ens, w, ch + [(a + 4 + rng.randint(0, 3), None)]))
+    # small scope, exhaustive in the death point: every wait and every unit of a short run
+    for w in (1, 2):
+        for steps in ((3, 4) if ctx.quick else (2, 3, 4, 5, 6)):
+            for j in range(1, steps + 1):
+                plans.append((3, w, [(steps, ("wait", j)), (steps, None)]))
+            for u in range(1, steps + 1):
+                plans.append((3, w, [(steps, ("unit", u)), (steps, None)]))
     for (n_ens, w, chain) in plans:
         scenario(ctx, n_ens, w, chain, rng.randint(0, 3), ctx._driver_ok, outs)
     for sim, label in outs:
